@@ -209,10 +209,14 @@ def movedToStart : List K → Bool
   | .T :: _ => true
   | _ :: r => movedGo false true r
 
-/-! ## `__getitem__`: int in a matrix position → `slice(i, i+1)` (as the code is) and the repaired form -/
+/-! ## `__getitem__`: int in a matrix position → normalise, then `slice(i, i+1)` -/
 
-def intToSlice (i : Int) : Item := .slice (some i) (some (i + 1)) none
-def intToSliceFixed (n : Nat) (i : Int) : Item := let j : Int := wrap n i; .slice (some j) (some (j + 1)) none
+/-- the rewriting before commit 11686d1 (no normalisation of negative ints) -/
+def intToSliceOld (i : Int) : Item := .slice (some i) (some (i + 1)) none
+/-- the rewriting as the code is: `if i < 0: i += size` then `slice(i, i + 1, None)` -/
+def intToSlice (n : Nat) (i : Int) : Item :=
+  let j : Int := if i < 0 then i + n else i
+  .slice (some j) (some (j + 1)) none
 
 /-- rule choosing `_get_indices` (true) vs `_getitem` -/
 def rowColAbsorbed (batchHasT rowT colT : Bool) : Bool :=
@@ -247,28 +251,27 @@ def catLocate : List Nat → Nat → Nat × Nat
   | [], i => (0, i)
   | s :: r, i => if i < s then (0, i) else let (p, l) := catLocate r (i - s); (p + 1, l)
 
-/-- `CatLinearOperator._split_slice` (step None) as the code is: bounds via `%`; result =
-(first piece, start in it, last piece, stop in it) -/
 def pyMod (a : Int) (n : Nat) : Nat := (a % (n : Int)).toNat
 
-def splitSliceBounds (sizes : List Nat) (a b : Option Int) : Nat × Nat × Nat × Nat :=
-  let n := sizes.foldl (· + ·) 0
-  let start := match a with | none => 0 | some s => pyMod s n
-  let stop := match b with | none => n | some s => pyMod s n
-  let (fp, fl) := catLocate sizes start
-  -- idx_to_tensor_idx[stop - 1]; Python's negative index -1 wraps to the last entry
-  let lastIdx := if stop = 0 then n - 1 else stop - 1
-  let (lp, _) := catLocate sizes lastIdx
-  let cum := (sizes.take lp).foldl (· + ·) 0
-  (fp, fl, lp, stop - cum)
+def sumNat (l : List Nat) : Nat := l.foldl (· + ·) 0
 
-/-- the repaired `_split_slice`: bounds via `slice.indices` -/
-def splitSliceBoundsFixed (sizes : List Nat) (a b : Option Int) : Nat × Nat × Nat × Nat :=
-  let n := sizes.foldl (· + ·) 0
-  let start := sliceStart n a
-  let stop := sliceStop n b
-  let (fp, fl) := catLocate sizes start
-  let (lp, ll) := catLocate sizes (stop - 1)
-  (fp, fl, lp, ll + 1)
+/-- shared tail of `_split_slice`: from the normalised `start`, `stop` to
+(first piece, start in it, last piece, stop in it); `idx_to_tensor_idx[stop - 1]` wraps for `stop = 0` like Python's `[-1]` -/
+def splitFrom (sizes : List Nat) (start stop : Nat) : Nat × Nat × Nat × Nat :=
+  let n := sumNat sizes
+  let fp := (catLocate sizes start).1
+  let fl := (catLocate sizes start).2
+  let lastIdx := if stop = 0 then n - 1 else stop - 1
+  let lp := (catLocate sizes lastIdx).1
+  (fp, fl, lp, stop - sumNat (sizes.take lp))
+
+/-- `CatLinearOperator._split_slice` (step None) as the code is (commit d38a2f1): bounds via `slice.indices(cat_size)` -/
+def splitSliceBounds (sizes : List Nat) (a b : Option Int) : Nat × Nat × Nat × Nat :=
+  splitFrom sizes (sliceStart (sumNat sizes) a) (sliceStop (sumNat sizes) b)
+
+/-- the previous code: bounds via `% cat_size` -/
+def splitSliceBoundsOld (sizes : List Nat) (a b : Option Int) : Nat × Nat × Nat × Nat :=
+  let n := sumNat sizes
+  splitFrom sizes (match a with | none => 0 | some s => pyMod s n) (match b with | none => n | some s => pyMod s n)
 
 end LinOp.C03
